@@ -286,6 +286,27 @@ INPUT_TASKS_CONTRACTS = [
              inputs={'self': it_obj(), 'item': S(Str, 'item'), 'default': Const(None)}, callees=_FIND_CALLEE,
              ensures={'same_rule': 'it_get_post'}, ensures_raise={'unresolved': 'it_get_raise'}, l0=['A-dict'], searchable=False),
 ]
+
+
+def it_set_post(self, old_self, key, value):
+    """registering an input: the entry is there under exactly that name, every other entry is as before, and the positional
+    list grows by that task iff the name is new (positions follow declaration order, re-registering does not duplicate)"""
+    was = any(k0 == key for k0, v0 in old_self.items())      # exact membership in the underlying dict (`key in self` would resolve names)
+    return all_of(any(all_of(k == key, v == value) for k, v in self.items()),
+                  all(any_of(k == key, any(all_of(k == k0, v == v0) for k0, v0 in old_self.items())) for k, v in self.items()),
+                  all(any(all_of(k == k0, v == v0) for k, v in self.items()) for k0, v0 in old_self.items() if k0 != key),
+                  self.task_list == (old_self.task_list if was else old_self.task_list + [value]))
+
+
+def it_index_post(self, item, result):
+    return result == self.task_list[item]
+
+
+INPUT_TASKS_CONTRACTS += [
+    Contract(id='C10.inputs.setitem', target='taskchain.task:InputTasks.__setitem__', props={'C10': 'supporting', 'C08': 'supporting'},
+             inputs={'self': it_obj(), 'key': S(Str, 'key'), 'value': S(ATaskU, 'value')},
+             ensures={'registered': 'it_set_post'}, l0=['A-dict'], searchable=False),
+]
 if _os.environ.get('PYVC_INPUT_TASKS', '1') == '1':
     GET_TASK_CONTRACTS += INPUT_TASKS_CONTRACTS
 CONTRACTS += GET_TASK_CONTRACTS
